@@ -106,7 +106,7 @@ def fermion_to_qubit_mapping(fermion_operator, mapping, n_spinorbitals=None, n_e
     if mapping.upper() not in available_mappings:
         raise ValueError(f"Invalid mapping selection. Select from: {available_mappings}")
 
-    if mapping.upper in {"BK", "SCBK", "JKMN"} and n_spinorbitals is None:
+    if mapping.upper() in {"BK", "SCBK", "JKMN"} and n_spinorbitals is None:
         raise ValueError(f"{mapping.upper()} requires n_spinorbitals to be set.")
 
     if up_then_down:
